@@ -183,6 +183,83 @@ theorem nodes_inv (ops : List Op) (c : LState)
   · exact ⟨h.2.2.1.nodup, h.2.2.1.bound, h.2.2.1.count⟩
   · exact ⟨h.2.2.2.nodup, h.2.2.2.bound, h.2.2.2.count⟩
 
+/-! ### Elements never move (chain model; the heap-level versions are `ptr_insert_returns` / `ptr_remove_returns`,
+    where the surviving items keep their addresses) -/
+
+/-- `insert`: every item that was in the list stays in its node (same id, same value, same relative order); the
+    new element lives in a node that was not part of the list -/
+theorem never_move_insert (s : LState) (hs : LState.LInv s) (pos : Nat) (v : Int) (r : Res LState)
+    (h : s.insert pos v = some r) :
+    ∃ id, id ∉ s.ids ∧ r.st.nodes = s.nodes.take pos ++ (id, v) :: s.nodes.drop pos := by
+  unfold LState.insert at h
+  by_cases c : pos ≤ s.size
+  · simp only [c, if_true, Option.some.injEq] at h
+    rw [← h]
+    have hnd := hs.nodup
+    unfold LState.pool at hnd
+    cases hf : s.free with
+    | cons f rest =>
+      refine ⟨f, ?_, by simp [LState.insertRaw, LState.allocNode, hf]⟩
+      intro hm
+      rw [hf] at hnd
+      exact (List.nodup_append.1 hnd).2.2 f hm f List.mem_cons_self rfl
+    | nil =>
+      refine ⟨4 * s.nblocks + 3, ?_, by simp [LState.insertRaw, LState.allocNode, hf]⟩
+      intro hm
+      have := hs.bound (4 * s.nblocks + 3) (by unfold LState.pool; simp [hm])
+      omega
+  · simp [c] at h
+
+/-- `insert(pos, list)` / `append(list)` / `prepend(list)`: the old items survive in their nodes and in order -/
+theorem never_move_insertList (s : LState) (pos : Nat) (vs : List Int) (r : Res LState)
+    (h : s.insertList pos vs = some r) :
+    s.nodes.Sublist r.st.nodes ∧ r.st.nodes.length = s.nodes.length + vs.length := by
+  have key : ∀ (vs : List Int) (s : LState) (pos : Nat),
+      s.nodes.Sublist (s.insertMany pos vs).1.nodes ∧ (s.insertMany pos vs).1.nodes.length = s.nodes.length + vs.length := by
+    intro vs
+    induction vs with
+    | nil => intro s pos; exact ⟨List.Sublist.refl _, rfl⟩
+    | cons v vs ih =>
+      intro s pos
+      obtain ⟨i1, i2⟩ := ih (s.insertRaw pos v).1 (pos + 1)
+      have hn : (s.insertRaw pos v).1.nodes = s.nodes.take pos ++ ((LState.allocNode s).1, v) :: s.nodes.drop pos := by
+        simp [LState.insertRaw, LState.allocNode_nodes]
+      have hsub : s.nodes.Sublist (s.insertRaw pos v).1.nodes := by
+        rw [hn]
+        conv => lhs; rw [← List.take_append_drop pos s.nodes]
+        exact List.Sublist.append (List.Sublist.refl _) (List.sublist_cons_self _ _)
+      have hlen : (s.insertRaw pos v).1.nodes.length = s.nodes.length + 1 := by
+        rw [hn]; simp; omega
+      have e : (s.insertMany pos (v :: vs)).1 = ((s.insertRaw pos v).1.insertMany (pos + 1) vs).1 := by
+        simp [LState.insertMany]
+      rw [e]
+      exact ⟨hsub.trans i1, by rw [i2, hlen]; simp; omega⟩
+  unfold LState.insertList at h
+  by_cases c : pos ≤ s.size
+  · simp only [c, if_true, Option.some.injEq] at h
+    rw [← h]; exact key vs s pos
+  · simp [c] at h
+
+/-- `remove(iterator)`: exactly the designated node leaves the chain, every other item stays in its node -/
+theorem never_move_remove (s : LState) (pos : Nat) (r : Res LState) (h : s.remove pos = some r) :
+    r.st.nodes = s.nodes.eraseIdx pos ∧ ∃ id x, s.nodes[pos]? = some (id, x) ∧ r.st.free = id :: s.free := by
+  unfold LState.remove at h
+  cases hq : s.nodes[pos]? with
+  | none => simp [hq] at h
+  | some n =>
+    obtain ⟨id, x⟩ := n
+    simp only [hq, Option.some.injEq] at h
+    rw [← h]
+    exact ⟨by simp [List.eraseIdx_eq_take_drop_succ], id, x, rfl, rfl⟩
+
+/-- `swap` hands the two chains over as they are (nodes, free lists and blocks): no element is copied or moved -/
+theorem never_move_swap (s : State) (v : Nat) (hv : v < 2) (r : Res State) (h : step s (.lswap v) = some r) :
+    r.st.getL v = s.getL (1 - v) ∧ r.st.getL (1 - v) = s.getL v := by
+  simp only [step, hv, if_true, Option.some.injEq] at h
+  rw [← h]
+  have : v = 0 ∨ v = 1 := by omega
+  rcases this with e | e <;> subst e <;> simp [State.getL, State.setL]
+
 /-! ### Pointer level: the relinking code of List.hpp -/
 
 /-- `insert(position, value)`, `insert(position, list)` (the loop inserting in front of one fixed item),
